@@ -225,6 +225,59 @@ def operator_obligations(rep):
             rep.proved(oid, 'pysym', detail, function=FN, clause=clause)
         else:
             rep.failed(oid, 'pysym', f'{detail}; reference {getattr(want, "__name__", want)}', function=FN, clause=clause, replay=replay_exec(sql))
+    # operand kinds: the operator and both operands are kept whatever the operands are (column, number, string, NULL)
+    kinds = {'col': ('x', ('col', 'x')), 'int': ('7', ('const', 7)), 'str': ("'s'", ('const', 's')), 'null': ('NULL', ('const', None))}
+
+    def leaf(el):
+        while type(el).__name__ in ('Label', 'Grouping') and hasattr(el, 'element'):
+            el = el.element
+        tn = type(el).__name__
+        if tn == 'BindParameter':
+            return ('const', el.value)
+        if tn == 'Null':
+            return ('const', None)
+        if tn == 'ColumnClause':
+            return ('col', el.name)
+        return ('other', tn)
+    n_ev = 0
+    for tok in toks:
+        text = lx.get(tok)
+        if text is None or tok in ('IN', 'NOT_IN', 'IS', 'IS_NOT') or tok.startswith('JSON'):
+            continue
+        for (lk, (ltxt, lref)), (rk, (rtxt, rref)) in itertools.product(kinds.items(), kinds.items()):
+            if (lk, rk) == ('col', 'col'):
+                continue
+            ltxt2 = 'a' if lk == 'col' else ltxt
+            lref2 = ('col', 'a') if lk == 'col' else lref
+            sql = f'select id from t where {ltxt2} {text} {rtxt}'
+            oid = f'C06.opnd.{tok}.{lk}.{rk}'
+            clause = 'for every operand kind (column, number, string, NULL) on either side: same reference operator, same two operands in order (no coercion such as `= NULL` -> IS NULL)'
+            n_ev += 1
+            try:
+                r, stmt, q = stmt_of(sql)
+                el = stmt._where_criteria[0]
+                while not hasattr(el, 'operator') and hasattr(el, 'element'):
+                    el = el.element
+                op = getattr(el, 'operator', None)
+                srcop = q.where.op
+                got = (leaf(getattr(el, 'left', None)), leaf(getattr(el, 'right', None)))
+            except Exception as e:
+                from sqlalchemy.exc import SQLAlchemyError
+                if isinstance(e, (NotImplementedError, SQLAlchemyError)):
+                    rep.proved(oid, 'pysym', f'refused ({type(e).__name__}) rather than mistranslated', function=FN, clause=clause)
+                else:
+                    rep.failed(oid, 'pysym', f'{type(e).__name__}: {e}'[:150], function=FN, clause=clause, replay=None)
+                continue
+            want = ref.get(srcop)
+            ok = ((op is want) or getattr(op, 'opstring', None) == srcop) if want is not None else (getattr(op, 'opstring', None) == srcop)
+            if type(el).__name__ == 'BooleanClauseList':
+                got = tuple(leaf(c_) for c_ in el.clauses)
+            if ok and got == (lref2, rref):
+                rep.proved(oid, 'pysym', f'{srcop!r} -> {getattr(op, "__name__", getattr(op, "opstring", op))} of {got}', function=FN, clause=clause)
+            else:
+                rep.failed(oid, 'pysym', f'`{ltxt2} {text} {rtxt}` is rendered as {getattr(op, "__name__", getattr(op, "opstring", op))} of {got}; reference {getattr(want, "__name__", srcop)} of {(lref2, rref)}',
+                           function=FN, clause=clause, replay=replay_exec(sql))
+    rep.census['operand_kind_cases'] = n_ev
 
 
 # ------------------------------------------------------------------ differential execution
@@ -267,6 +320,7 @@ EXEC_QUERIES = [
     'select id from t where b between 1 and 3', 'select id, a + b * 2, a - b - 1, (a + b) * 2 from t', "select id, case when a = 1 then 'one' when a = 2 then 'two' else 'other' end from t",
     'select id, sum(b) over (partition by a order by id) from t', 'select id, sum(b) over (partition by a order by b nulls last, id) from t',
     'select a from t limit 2 offset 1', 'select x.a from (select a from t where a > 1) as x', 'with w as (select a from t) select a from w', 'select id from t where a in (select a from u)',
+    'select id from t where a = NULL', 'select id from t where a <> NULL', 'select id from t where not a = NULL', 'select id from t where NULL = a', 'select a.id from a join b on a.b = NULL',
     "select id, c || 'z' from t", 'select id from t where c like \'x%\'', 'select cast(a as varchar) from t', 'select - a, a % 2 from t where a is not null',
 ]
 
